@@ -14,7 +14,7 @@ pub struct Limits {
 pub fn limits(scale: Scale, tier: Tier) -> Limits {
     match (scale, tier) {
         (Scale::Tiny, Tier::Quick) => Limits { max_n: 520, big_n: 0, n_random: 1 },
-        (Scale::Tiny, Tier::Thorough) => Limits { max_n: 2600, big_n: 0, n_random: 8 },
+        (Scale::Tiny, Tier::Thorough) => Limits { max_n: 1600, big_n: 0, n_random: 6 },
         (Scale::Mid, Tier::Quick) => Limits { max_n: 9000, big_n: 40_000, n_random: 6 },
         (Scale::Mid, Tier::Thorough) => Limits { max_n: 70_000, big_n: 300_000, n_random: 30 },
         (Scale::Full, Tier::Quick) => Limits { max_n: 40_000, big_n: 300_000, n_random: 12 },
@@ -121,7 +121,7 @@ pub fn plain_tree_specs(scale: Scale, tier: Tier, bits: u32, seed: u64) -> Vec<S
     let mut rng = Rng::derive(seed, "plain_tree_specs", bits as u64);
     // interpreters, quick tier: keep the trees shallow (a 64-level tree costs minutes under Miri);
     // wide values are the business of the native lanes and of the thorough tier
-    let bits = if scale == Scale::Tiny && tier == Tier::Quick { bits.min(20) } else { bits };
+    let bits = if scale == Scale::Tiny { bits.min(if tier == Tier::Quick { 20 } else { 40 }) } else { bits };
     let alphas = plain_alphabets(bits);
     let mut out = Vec::new();
     let mut k = rng.usize_below(1000);
